@@ -9,9 +9,11 @@
 #if defined(H_CFG_back) || defined(H_CFG_back_fct)
 #include <boost/msm/back/state_machine.hpp>
 #include <boost/msm/back/favor_compile_time.hpp>
+#include <boost/msm/back/queue_container_circular.hpp>
 #elif defined(H_CFG_back11)
 #include <boost/msm/back/state_machine.hpp>
 #include <boost/msm/back11/state_machine.hpp>
+#include <boost/msm/back/queue_container_circular.hpp>
 #define H_HAS_BACK11 1
 #else
 #include <boost/msm/back/state_machine.hpp>
